@@ -365,8 +365,8 @@ func checkC16(ctx *Ctx) {
 	ctx.exhaustive = false
 	gens := c16Gens()
 	u := c16Universe()
-	c16Lane(ctx, "random", ctx.N(500, 8000), gens, u, 40, 60, 0.08, false)
-	c16Lane(ctx, "alias", ctx.N(300, 4000), gens, u, 30, 50, 0, true)
+	c16Lane(ctx, "random", ctx.N(1500, 12000), gens, u, 40, 60, 0.08, false)
+	c16Lane(ctx, "alias", ctx.N(900, 6000), gens, u, 30, 50, 0, true)
 	if f := os.Getenv("C16_DUMP_CLASSES"); f != "" {
 		// debugging aid: the full list of transition classes observed
 		ctx.mu.Lock()
